@@ -2797,18 +2797,14 @@ class Network(Cached):
         link_betweenness = self.graph.edge_betweenness()
 
         #  Initialize
-        result, ecount = np.zeros((self.N, self.N)), 0
+        result = np.zeros((self.N, self.N))
 
-        #  Get graph adjacency list
-        A_list = self.graph.get_adjlist()
-
-        #  Write link betweenness values to matrix
-        for i, Ai in enumerate(A_list):
-            for j in Ai:
-                #  Only visit links once
-                if i < j:
-                    result[i, j] = result[j, i] = link_betweenness[ecount]
-                    ecount += 1
+        #  Write link betweenness values to matrix, using the end nodes of
+        #  each link as stored in the graph (reciprocal links add up)
+        for e, value in zip(self.graph.es, link_betweenness):
+            i, j = e.tuple
+            result[i, j] += value
+            result[j, i] = result[i, j]
         return result
 
     def edge_betweenness(self):
